@@ -533,12 +533,9 @@ def sess_describe(t, pos, tag):
     return obl, sig, "%s scenario (%s) violates %s at event %d: %s" % (sub, cfgs, tag, pos, json.dumps(ev)[:300])
 
 
-def check_sess(ctx, drv):
-    """Session-level limits on a real torrent.Session (shared harness vh): upload queue, request pipeline, write cache,
-    web-seed caps, rate limits, generated configurations.  All drivers run concurrently (children of harness/c17);
-    the small design models are checked meanwhile; one TLC run judges all histories."""
+def sess_launch(ctx, drv):
+    """Start all session-level drivers (children of harness/c17) concurrently; returns (executor, futures)."""
     import concurrent.futures as cf
-    q = ctx.quick()
     plan = []   # (sub, mode, first, n, tag)
 
     def shards(sub, total, k, mode="", base=0):
@@ -561,8 +558,18 @@ def check_sess(ctx, drv):
         seed = ctx.seed * 100 + (tag if sub != "config" else 0)       # config: one covering array per check seed
         ctx.run_drv(drv, ["-sub", sub, "-mode", mode, "-seed", str(seed), "-first", str(lo), "-n", str(hi), "-out", out], timeout=900)
         return out
-    with cf.ThreadPoolExecutor(max_workers=len(plan)) as ex:
-        futs = [ex.submit(drive, it) for it in plan]
+    ex = cf.ThreadPoolExecutor(max_workers=len(plan))
+    return ex, [ex.submit(drive, it) for it in plan]
+
+
+def check_sess(ctx, drv, launched=None):
+    """Session-level limits on a real torrent.Session (shared harness vh): upload queue, request pipeline, write cache,
+    web-seed caps, rate limits, generated configurations.  All drivers run concurrently (children of harness/c17; when the
+    whole check runs they are started first and work while the manager-level sub-checks run); the small design models
+    are checked meanwhile; one TLC run judges all histories."""
+    q = ctx.quick()
+    ex, futs = launched or sess_launch(ctx, drv)
+    if True:
         # design level, while the drivers run
         for mod, cfg in (("LimitsSessUQ", "MC_LimitsSessUQ.cfg"), ("LimitsSessPL", "MC_LimitsSessPL.cfg"), ("LimitsSessWS", "MC_LimitsSessWS.cfg")):
             mc(ctx, mod, cfg, timeout=600)
@@ -576,6 +583,7 @@ def check_sess(ctx, drv):
         ok, _ = mc(ctx, "LimitsSessWS", "MC_LimitsSessWS_asis.cfg", timeout=600, expect_ok=False)
         ctx.extra["sess_model_asis_webseed_counter"] = "no error" if ok else "webseedActiveDownloads leaves [0, cap]: a corrupt piece frees a slot although its download has already ended"
         outs = [f.result() for f in futs]
+        ex.shutdown()
     traces = []
     for o in outs:
         traces += read_traces(o)
@@ -662,11 +670,16 @@ def run(ctx):
                         "or 5 s without any progress"]
     drv = ctx.build_go("c17")
     only = os.environ.get("C17_ONLY")
-    for name, fn in SUBCHECKS:
-        if only and name not in only.split(","):
-            continue
+    selected = [(name, fn) for name, fn in SUBCHECKS if not (only and name not in only.split(","))]
+    launched = None
+    if len(selected) > 1 and any(name == "sess" for name, _ in selected):
+        launched = sess_launch(ctx, drv)       # scripted-peer scenarios mostly wait: let them run during the model checking
+    for name, fn in selected:
         vlib.log("C17 sub-check", name)
-        fn(ctx, drv)
+        if name == "sess":
+            fn(ctx, drv, launched)
+        else:
+            fn(ctx, drv)
         # vacuity guard: every core obligation of the sub-check must have been evaluated on real-code events
         for tag in REQUIRED.get(name, ()):
             if ctx.obligation_counts.get(tag, 0) == 0:
